@@ -97,7 +97,7 @@ func (c *VC) ghostBuiltin(st *State, name string, call *ast.CallExpr) []*Term {
 		b := c.eval(st, call.Args[0])
 		sv := c.eval(st, call.Args[1])
 		p := c.eval(st, call.Args[2])
-		_, h := c.sliceHeap(st, c.byteSort())
+		_, h := c.sliceHeap(st, types.Typ[types.Uint8])
 		return []*Term{mkAnd(mkEq(c.sel(h, mkField(b, "sl_base")), mkField(sv, "st_arr")),
 			mkEq(mkField(b, "sl_off"), c.binop(token.ADD, mkField(sv, "st_off"), p, it)),
 			c.cmp(token.LEQ, c.idxLit(0), p, it),
@@ -206,7 +206,7 @@ func (c *VC) ghostBuiltin(st *State, name string, call *ast.CallExpr) []*Term {
 		st0 := c.typeOf(call.Args[0])
 		var row, off *Term
 		if sl, isSlice := st0.Underlying().(*types.Slice); isSlice {
-			_, h := c.sliceHeap(st, c.sortOf(sl.Elem()))
+			_, h := c.sliceHeap(st, sl.Elem())
 			row = c.sel(h, mkField(sv, "sl_base"))
 			off = mkField(sv, "sl_off")
 		} else {
@@ -252,7 +252,7 @@ func (c *VC) ghostBuiltin(st *State, name string, call *ast.CallExpr) []*Term {
 				run.mods = append(run.mods, modSpec{kind: "all"})
 			}
 		case *types.Slice:
-			run.mods = append(run.mods, modSpec{kind: strings.ToLower(strings.TrimPrefix(name, "modifies")), v: v, elemS: c.sortOf(u.Elem())})
+			run.mods = append(run.mods, modSpec{kind: strings.ToLower(strings.TrimPrefix(name, "modifies")), v: v, elemS: c.sortOf(u.Elem()), typ: u.Elem()})
 		case *types.Pointer:
 			run.mods = append(run.mods, modSpec{kind: "ptr", v: v, elemS: c.sortOf(u.Elem()), typ: u.Elem()})
 		default:
@@ -263,6 +263,10 @@ func (c *VC) ghostBuiltin(st *State, name string, call *ast.CallExpr) []*Term {
 		v := c.eval(st, call.Args[0])
 		if run != nil && run.old != nil {
 			return []*Term{mk(">=", sortBool, mkField(v, "sl_base"), run.old.alloc)}
+		}
+		if c.entry != nil {
+			// inside the function under verification (loop invariants): allocated since entry
+			return []*Term{mk(">=", sortBool, mkField(v, "sl_base"), c.entry.alloc)}
 		}
 		return []*Term{tTrue}
 	case "sameOrDisjoint":
@@ -340,7 +344,7 @@ func (c *VC) frameFormula(hn string, h0, h1, alloc0 *Term, mods []modSpec) *Term
 		i := c.boundVar("i", c.idxSort())
 		var regs []*Term
 		for _, m := range mods {
-			if m.kind == "ptr" || m.kind == "all" || c.sliceHeapName(m.elemS) != hn {
+			if m.kind == "ptr" || m.kind == "all" || m.kind == "map" || c.sliceHeapName(m.typ) != hn {
 				continue
 			}
 			off, ln, cp := mkField(m.v, "sl_off"), mkField(m.v, "sl_len"), mkField(m.v, "sl_cap")
@@ -395,7 +399,7 @@ func (c *VC) modHeapNames(mods []modSpec) map[string]bool {
 				r[hn] = true
 			}
 		case "tail", "elems":
-			r[c.sliceHeapName(m.elemS)] = true
+			r[c.sliceHeapName(m.typ)] = true
 		case "map":
 			r["HMd_"+sanitize(m.elemS.Name)] = true
 			r["HMv_"+sanitize(m.elemS.Name)+"_"+sanitize(m.valS.Name)] = true
@@ -458,8 +462,8 @@ func (c *VC) callByContract(st *State, fi *FuncInfo, args []*Term, call *ast.Cal
 				}
 			} else if strings.HasPrefix(hn, "HS_") {
 				for _, m := range run.mods {
-					if m.kind != "ptr" && c.sliceHeapName(m.elemS) == hn {
-						_, h0 = c.sliceHeap(st, m.elemS)
+					if (m.kind == "tail" || m.kind == "elems") && c.sliceHeapName(m.typ) == hn {
+						_, h0 = c.sliceHeap(st, m.typ)
 					}
 				}
 			} else {
@@ -689,7 +693,7 @@ func (c *VC) checkWrite(st *State, hn string, base, lo, hi *Term, pos token.Pos,
 		i := c.boundVar("i", c.idxSort())
 		var regs []*Term
 		for _, m := range c.mods {
-			if m.kind == "ptr" || c.sliceHeapName(m.elemS) != hn {
+			if m.kind == "ptr" || m.kind == "map" || m.kind == "all" || c.sliceHeapName(m.typ) != hn {
 				continue
 			}
 			off, ln, cp := mkField(m.v, "sl_off"), mkField(m.v, "sl_len"), mkField(m.v, "sl_cap")
@@ -752,7 +756,7 @@ func (c *VC) checkCalleeMods(st *State, mods []modSpec, pos token.Pos, text stri
 			if m.kind == "tail" {
 				lo, hi = c.binop(token.ADD, off, ln, it), c.binop(token.ADD, off, cp, it)
 			}
-			c.checkWrite(st, c.sliceHeapName(m.elemS), mkField(m.v, "sl_base"), lo, hi, pos, text)
+			c.checkWrite(st, c.sliceHeapName(m.typ), mkField(m.v, "sl_base"), lo, hi, pos, text)
 		}
 	}
 }
